@@ -298,19 +298,31 @@ fn instance(tx: mpsc::Sender<Value>, seed: u64, flavor: String, exec: String, ti
                     accepted.push(v);
                 }
                 std::thread::sleep(Duration::from_millis(2));
+                // variant B (when key 2 is resident and its shard-mate is not): only the shard-mate is queued and only key 2 is
+                // pinned -- the processor's own store insert of the newcomer is what meets the guard, not a victim's removal
+                let p0 = post(&api.0);
+                let key2_resident = p0["store"].as_array().unwrap().iter().any(|e| e["i"].as_u64() == Some(2));
+                let only_mate = key2_resident && fresh.contains(&crate::cache::SHARD_MATE) && rng.gen_bool(0.6);
+                if only_mate {
+                    fresh = vec![crate::cache::SHARD_MATE];
+                }
                 for fk in fresh.iter() {
                     let v = next_val;
                     next_val += 1;
-                    if api.insert(*fk, v, rng.gen_range(2..4), 0) {
+                    if api.insert(*fk, v, if only_mate { 1 } else { rng.gen_range(2..4) }, 0) {
                         accepted.push(v);
                     }
                 }
                 let p = post(&api.0);
-                let ks: Vec<u64> = p["store"].as_array().unwrap().iter()
-                    .filter_map(|e| crate::cache::KEYTAB.iter().position(|kt| kt.0 == e["i"].as_u64().unwrap()).map(|x| x as u64))
-                    .collect();
+                let ks: Vec<u64> = if only_mate {
+                    vec![2]
+                } else {
+                    p["store"].as_array().unwrap().iter()
+                        .filter_map(|e| crate::cache::KEYTAB.iter().position(|kt| kt.0 == e["i"].as_u64().unwrap()).map(|x| x as u64))
+                        .collect()
+                };
                 lookups += ks.len() as u64;
-                let (h, _n) = api.hold_refs(ks, 30);
+                let (h, _n) = api.hold_refs(ks, 40);
                 crate::cache::GATE_CLOSED.store(false, Ordering::SeqCst);
                 let _ = h.join();
             } else {
